@@ -864,7 +864,136 @@ def gen_tape():
     return o
 
 
-GENERATORS = [gen_text, gen_tape]
+
+def gen_basic():
+    o = Out("GenBasic")
+    cv = lambda: module("moto_lib/basic/converter_from_listing.py")
+    tk = lambda: module("moto_lib/basic/tokenizer.py")
+    b2l = lambda: module("moto_bas2lst/bas2lst.py")
+    l2b = lambda: module("moto_lst2bas/lst2bas.py")
+
+    def tokens():
+        d = assign_value(cv(), "basicTokensMap")
+        if not isinstance(d, ast.Dict):
+            raise TieError("basicTokensMap is not a dict literal")
+        items = []
+        seen = set()
+        for k, v in zip(d.keys, d.values):
+            ks, vi = const_str(k), const_int(v)
+            if ks in seen:
+                # a later duplicate key overrides the earlier one in a dict literal
+                items = [(a, b) for a, b in items if a != ks]
+            seen.add(ks)
+            items.append((ks, vi))
+        return "[" + "; ".join(f"({zlist(str_points(k))}, {zlit(v)})" for k, v in items) + "]"
+
+    o.item("basic_tokens", "list (list Z * Z)", tokens)
+
+    def db():
+        d = assign_value(cv(), "basicTokensDb")
+        if not isinstance(d, ast.Dict):
+            raise TieError("basicTokensDb shape")
+        m = dict(zip([const_str(k) for k in d.keys], d.values))
+        if ast.unparse(m["map"]) != "basicTokensMap":
+            raise TieError("basicTokensDb.map")
+        rules = m["rules"]
+        r = dict(zip([const_str(k) for k in rules.keys], rules.values))
+        if set(r) != {"requireColonIfNotBlank"}:
+            raise TieError("rules keys")
+        return "[" + "; ".join(zlist(str_points(const_str(x))) for x in r["requireColonIfNotBlank"].elts) + "]"
+
+    o.item("require_colon", "list (list Z)", db)
+
+    def litdb():
+        d = assign_value(cv(), "litteralTokensDb")
+        if isinstance(d, ast.Dict) and not d.keys:
+            return "true"
+        raise TieError("litteralTokensDb is not {}")
+
+    o.item("literal_db_is_empty", "bool", litdb)
+
+    def special():
+        l = assign_value(find_scope(cv(), "ListingToTokenizedBasicConverter"), "SPECIAL_CHARS")
+        cs = [const_str(x) for x in l.elts]
+        if any(len(c) != 1 for c in cs):
+            raise TieError("SPECIAL_CHARS entries")
+        return zlist([ord(c) for c in cs])
+
+    o.item("special_chars", "list Z", special)
+    o.item("program_base", "Z", lambda: tr(assign_value(find_scope(cv(), "ListingToTokenizedBasicConverter.convert"), "pointerNext", 0), Env()))
+
+    def u16(scope_f, qual):
+        fn = find_scope(scope_f(), qual)
+        r = fn.body[-1].value  # bytes([...])
+        return tr(r.args[0], Env(params={"value": "value"}))
+
+    o.item("conv_u16", "list Z", lambda: u16(cv, "ListingToTokenizedBasicConverter.toUint16"), params=[("", "value", "Z")])
+    o.item("tok_u8", "list Z", lambda: u16(tk, "toUint8"), params=[("", "value", "Z")])
+    o.item("tok_u16", "list Z", lambda: u16(tk, "toUint16"), params=[("", "value", "Z")])
+
+    def bytes_from_uint():
+        fn = find_scope(tk(), "bytesFromUint")
+        r = fn.body[-1].value
+        if not (isinstance(r, ast.IfExp) and ast.unparse(r.body) == "toUint8(value)" and ast.unparse(r.orelse) == "toUint16(value)"):
+            raise TieError("bytesFromUint shape")
+        return f"(if {tr(r.test, Env(params={'value': 'value'}))} then tok_u8 value else tok_u16 value)"
+
+    o.item("bytes_from_uint", "list Z", bytes_from_uint, params=[("", "value", "Z")])
+
+    def colon():
+        fn = find_scope(tk(), "TokenizerContext.appendAsToken")
+        c = nth(calls_to(fn, "toUint8"), 0, "toUint8")
+        return tr(c.args[0], Env())
+
+    o.item("colon_byte", "Z", colon)
+    o.item("line_regex", "list Z", lambda: zlist(str_points(const_str(nth(calls_to(find_scope(cv(), "ListingToTokenizedBasicConverter.extractLineParts"), "search"), 0).args[0]))))
+
+    def convert_fn():
+        return find_scope(cv(), "ListingToTokenizedBasicConverter.convert")
+
+    def ptr_step():
+        a = [n for n in nodes(convert_fn(), ast.AugAssign) if ast.unparse(n.target) == "pointerNext"]
+        if len(a) != 1 or not isinstance(a[0].op, ast.Add):
+            raise TieError("pointerNext += shape")
+        return "(pointerNext + " + tr(a[0].value, Env(params={"lineBuffer": "lineBuffer"})) + ")"
+
+    o.item("ptr_step", "Z", ptr_step, params=[("", "pointerNext", "Z"), ("", "lineBuffer", "list Z")])
+    o.item("prog_marker", "list Z", lambda: tr(nth([n for n in nodes(convert_fn(), ast.AugAssign) if ast.unparse(n.target) == "header"], 0).value, Env()))
+    o.item("line_end", "list Z", lambda: tr(assign_value(convert_fn(), "zeroUint8"), Env()))
+    o.item("prog_end", "list Z", lambda: tr(assign_value(convert_fn(), "zeroUint16"), Env()))
+
+    # ASCII converter
+    def aconv():
+        return find_scope(cv(), "ListingToAsciiBasicConverter.convert")
+
+    o.item("ascii_eol", "list Z", lambda: tr(assign_value(aconv(), "endOfLine"), Env()))
+    o.item("ascii_keep", "bool", lambda: tr(nth(nodes(aconv(), ast.If), 0).test, Env(params={"car": "car"})), params=[("", "car", "Z")])
+
+    def ascii_rstrip():
+        c = nth(calls_to(aconv(), "rstrip"), 0, "rstrip")
+        if c.args:
+            raise TieError("rstrip has an argument")
+        return "true"
+
+    o.item("ascii_rstrip_is_plain", "bool", ascii_rstrip)
+
+    # bas2lst
+    def brun():
+        return find_scope(b2l(), "BasicToListingCli.run")
+
+    def eol():
+        v = assign_value(brun(), "endOfLine")
+        if not isinstance(v, ast.IfExp) or ast.unparse(v.test) != "args.dos":
+            raise TieError("endOfLine shape")
+        return f"(if dos then {tr(v.body, Env())} else {tr(v.orelse, Env())})"
+
+    o.item("b2l_eol", "list Z", eol, params=[("", "dos", "bool")])
+    o.item("b2l_is_sep", "bool", lambda: tr(nth([i for i in nodes(brun(), ast.If) if ast.unparse(i.test).startswith("byte in")], 0).test, Env(params={"byte": "byte"})), params=[("", "byte", "Z")])
+    o.item("b2l_flush_test", "bool", lambda: tr(nth([i for i in nodes(brun(), ast.If) if ast.unparse(i.test).startswith("lineOfCodeLength")], 0).test, Env(params={"lineOfCodeLength": "n"})), params=[("", "n", "Z")])
+    return o
+
+
+GENERATORS = [gen_text, gen_tape, gen_basic]
 
 
 def main():
